@@ -97,7 +97,15 @@ func c09R8(c *Ctx, r *Report) {
 			for _, call := range c.Calls(caller, false, nameIs(name)) {
 				ncallers++
 				isOwn, _ := ownWriteEdges(c, caller)
-				if len(isOwn) == 0 || !DominatedBy(caller, call, NewAvoid().AddEdge(isOwn...)) {
+				// documents without valid sync metadata are never imported: nothing can be pending for them
+				noMeta := EdgesWhere(caller, func(cond ssa.Value) (bool, bool) {
+					v, pos := BoolTest(cond)
+					if c.IsCallTo(v, nameHasSuffix(".HasValidSyncData")) {
+						return true, !pos
+					}
+					return false, false
+				})
+				if len(isOwn) == 0 || !DominatedBy(caller, call, NewAvoid().AddEdge(isOwn...).AddEdge(noMeta...)) {
 					unguarded = append(unguarded, c.FuncName(TopLevel(caller))+"@"+c.Pos(call.Pos()))
 				}
 			}
